@@ -15,7 +15,9 @@ decides:
      and op_idx counts 0,1,2.. within the group (never above 8);
   D5 whenever the decoder moves to the next group / batch / END, the current group value is 0;
   D6 the group counter is decremented once per group and per immediate, never below zero on the
-     way, and is 0 at END.
+     way, and is 0 at END;
+  D7 the operation handed to the debug information (what VmStateIterator reports per clock cycle) is
+     the operation of the decoder row appended at the same time: SPAN, each operation, RESPAN, END.
 Bounds: span sizes and flag positions as listed in the evidence; everything else symbolic."""
 import os
 import re
@@ -70,6 +72,10 @@ def natives():
     def n_execute_op(it, a, d, m):
         it.events.append(("exec", pm.deref(a[1])))
         return En("Ok", [UNIT], ty="Result")
+
+    def n_dbg(it, a, d, m):
+        it.events.append(("dbg", pm.deref(a[1])))
+        return UNIT
 
     def n_trace(it, a, d, m):
         it.events.append(("row", m.group(1), [pm.deref(x) for x in a[1:]]))
@@ -224,7 +230,7 @@ def natives():
         (re.compile(r"Operation::op_code"), op_code),
         (re.compile(r"operations::<impl Process<H>>::execute_op"), n_execute_op),
         (re.compile(r"(?:decoder::trace::)?DecoderTrace::(append_\w+)"), n_trace),
-        (re.compile(r"(?:\w+::)*DebugInfo::append_operation"), lambda it, a, d, m: UNIT),
+        (re.compile(r"(?:\w+::)*DebugInfo::append_operation"), n_dbg),
     ]
 
 
@@ -318,11 +324,19 @@ def check_path(res, tag, modes, V, cov):
             V.add(f"{tag}: {label}", "inconclusive", detail="solver unknown")
         return r == z3.unsat
 
+    def path_model():
+        """any concrete operation sequence that follows this path (for the native replay)"""
+        if solver.check() != z3.sat:
+            return None
+        m = solver.model()
+        return ({f"opc{o.i}": m.eval(o.opcode, model_completion=True).as_long() for o in ops} |
+                {f"imm{o.i}": (z3.is_true(m.eval(o.has_imm, model_completion=True)) if not isinstance(o.has_imm, bool) else o.has_imm) for o in ops})
+
     def structural(label, ok, detail=""):
         if ok:
             V.add(f"{tag}: {label}", "discharged")
         else:
-            cands.append((label + (": " + detail if detail else ""), None))
+            cands.append((label + (": " + detail if detail else ""), path_model()))
 
     if res.outcome != "ok" or not (isinstance(res.value, En) and res.value.variant == "Ok"):
         structural("D1 the span executes without panic or error", False, str(res.value)[:120])
@@ -344,7 +358,8 @@ def check_path(res, tag, modes, V, cov):
             pending_remove = e
         elif e[0] == "row" and e[1] == "append_user_op":
             op = e[2][0]
-            nxt = ev[k + 1] if k + 1 < len(ev) else None
+            rest = [x for x in ev[k + 1:k + 3] if x[0] != "dbg"]
+            nxt = rest[0] if rest else None
             same = lambda a, b: a is b or (is_noop(a) and is_noop(b))  # noqa: E731
             if pending_remove is None or not same(pending_remove[2], op) or nxt is None or nxt[0] != "exec" or not same(nxt[1], op):
                 order_ok = False
@@ -354,6 +369,19 @@ def check_path(res, tag, modes, V, cov):
     user = [x["op"] for x in seq if not is_noop(x["op"])]
     structural("D2 executed operations minus inserted NOOPs == the span's operations, in order",
                len(user) == len(ops) and all(a is b for a, b in zip(user, ops)), f"{user} vs {ops}")
+    # D7: the operation recorded for the debug iterator (VmStateIterator) is the operation of the trace row
+    want_dbg = []
+    for e in rows:
+        want_dbg.append({"append_span_start": "Span", "append_respan": "Respan", "append_span_end": "End"}.get(e[1], e[2][0] if e[1] == "append_user_op" else e[1]))
+    got_dbg = [e[1] for e in ev if e[0] == "dbg"]
+
+    def same_dbg(w, g):
+        if isinstance(w, str):
+            return isinstance(g, En) and g.variant == w
+        return w is g or (is_noop(w) and is_noop(g))
+    structural("D7 the debug operation stream names the operation of every decoder row (SPAN, ops, RESPAN, END)",
+               len(want_dbg) == len(got_dbg) and all(same_dbg(w, g) for w, g in zip(want_dbg, got_dbg)),
+               f"rows {[w if isinstance(w, str) else repr(w) for w in want_dbg][:12]} vs recorded {[repr(g) for g in got_dbg][:12]}")
     # D3: where NOOPs were inserted
     for j, x in enumerate(seq):
         if not is_noop(x["op"]):
